@@ -162,7 +162,7 @@ func main() {
 	for i := 0; i < nh; i++ {
 		histCase(run, rng.Fork(uint64(i)))
 	}
-	nl := run.Count(60, 1500)
+	nl := run.Count(90, 1500)
 	for i := 0; i < nl; i++ {
 		loadCase(run, rng.Fork(uint64(700000+i)))
 	}
@@ -261,7 +261,11 @@ func histCase(run *vgen.Run, r *vgen.Rand) {
 	case 8:
 		ins(u.mk(vb, 1, 1, 1, h(1), h(500), 0, "Bbase", false))
 	default:
-		for s := 1; s <= k0; s++ {
+		order := []int{1, 2, 3}[:k0]
+		if initShape%2 == 1 {
+			vgen.Shuffle(r, order) // direct InsertTRC calls out of order
+		}
+		for _, s := range order {
 			ins(main[uint64(s)])
 		}
 	}
@@ -352,31 +356,52 @@ func histCase(run *vgen.Run, r *vgen.Rand) {
 	run.Add("history", term, term, fetches > 0, map[string]any{"k0": k0, "initShape": initShape, "ops": desc})
 }
 
+const maxLoadSerial = 12
+
 func loadCase(run *vgen.Run, r *vgen.Rand) {
-	nfiles := r.Range(1, 6)
-	type fd struct{ kind, serial int }
-	files := make([]fd, nfiles)
-	for j := range files {
-		files[j] = fd{kind: []int{0, 0, 0, 1, 1, 2, 3, 3, 4, 5, 6, 6, 7}[r.Intn(13)], serial: r.Range(1, 5)}
+	type fd struct {
+		kind, serial int
+		name         string
 	}
-	k0 := r.Range(0, 2)
+	var files []fd
+	dirMode := r.Chance(1, 3)
+	if dirMode {
+		// a directory holding a whole succession: lexical file order differs from serial order
+		n := r.Range(10, maxLoadSerial)
+		for s := 1; s <= n; s++ {
+			files = append(files, fd{kind: []int{0, 0, 0, 1}[r.Intn(4)], serial: s, name: fmt.Sprintf("ISD1-B1-S%d.trc", s)})
+		}
+		if r.Chance(1, 3) {
+			files = append(files, fd{kind: vgen.Pick(r, 3, 6), serial: n + 1, name: fmt.Sprintf("ISD1-B1-S%d.trc", n+1)})
+		}
+	} else {
+		nfiles := r.Range(1, 7)
+		for j := 0; j < nfiles; j++ {
+			files = append(files, fd{kind: []int{0, 0, 0, 1, 1, 2, 3, 3, 4, 5, 6, 6, 7}[r.Intn(13)],
+				serial: r.Range(1, maxLoadSerial), name: fmt.Sprintf("%c%02d.trc", 'a'+rune(r.Intn(26)), j)})
+		}
+	}
+	k0 := r.Range(0, 3)
+	initOrder := []int{1, 2, 3}[:k0]
+	vgen.Shuffle(r, initOrder)
 	if !run.Want() {
 		run.Skip()
 		return
 	}
+	sort.Slice(files, func(i, j int) bool { return files[i].name < files[j].name }) // filepath.Glob order
 	g := pkigen.NewGen()
 	origin := time.Now().UTC().Truncate(time.Second)
 	u := &universe{g: g, a: pkigen.NewAbs(g, origin), vset: map[string]uint64{}, sigset: map[string]uint64{}}
 	h := func(n int) time.Time { return origin.Add(time.Duration(n) * time.Hour) }
 	va := newVoters(g, 1, iaCore, "A", h(-5000), h(5000))
 	main := map[int]cppki.SignedTRC{}
-	for s := 1; s <= 5; s++ {
+	for s := 1; s <= maxLoadSerial+1; s++ {
 		main[s] = u.mk(va, 1, 1, uint64(s), h(-100+s), h(500), time.Hour, "main", false)
 	}
 	store := newDB()
 	defer store.Close()
 	ctx := context.Background()
-	for s := 1; s <= k0; s++ {
+	for _, s := range initOrder { // direct InsertTRC calls, in any order
 		if _, err := store.InsertTRC(ctx, main[s]); err != nil {
 			panic(err)
 		}
@@ -390,7 +415,7 @@ func loadCase(run *vgen.Run, r *vgen.Rand) {
 	var fT []string
 	names := map[string]int{}
 	for j, f := range files {
-		name := filepath.Join(dir, fmt.Sprintf("f%02d.trc", j))
+		name := filepath.Join(dir, f.name)
 		names[name] = j
 		var raw []byte
 		term := "TrustStore.FBad"
@@ -439,9 +464,19 @@ func loadCase(run *vgen.Run, r *vgen.Rand) {
 	}
 	sort.Slice(loaded, func(i, j int) bool { return loaded[i] < loaded[j] })
 	sort.Slice(ignored, func(i, j int) bool { return ignored[i] < ignored[j] })
+	// what a "latest" lookup returns afterwards (used by NotifyTRC, activeTRCs, the renewal verifier)
+	latestT := "[]"
+	lt, err := store.SignedTRC(ctx, cppki.TRCID{ISD: 1, Base: scrypto.LatestVer, Serial: scrypto.LatestVer})
+	if err != nil {
+		panic(err)
+	}
+	if !lt.IsZero() {
+		latestT = vgen.NList([]uint64{uint64(lt.TRC.ID.ISD), uint64(lt.TRC.ID.Base), uint64(lt.TRC.ID.Serial),
+			u.a.TRCH(&lt.TRC)})
+	}
 	term := vgen.App("TrustStore.CLoad", fmt.Sprintf("(%d)%%Z", u.a.T(before)), initT, vgen.List(fT),
-		vgen.B(lerr != nil), vgen.NList(loaded), vgen.NList(ignored), storeTerm(u, store))
-	run.Tally(fmt.Sprintf("load:err=%v", lerr != nil))
-	run.Add("load", term, term, true, map[string]any{"files": fmt.Sprint(files), "k0": k0, "err": lerr != nil,
-		"loaded": loaded, "ignored": ignored})
+		vgen.B(lerr != nil), vgen.NList(loaded), vgen.NList(ignored), storeTerm(u, store), latestT)
+	run.Tally(fmt.Sprintf("load:err=%v,dir=%v", lerr != nil, dirMode))
+	run.Add("load", term, term, true, map[string]any{"files": fmt.Sprint(files), "init": initOrder, "err": lerr != nil,
+		"loaded": loaded, "ignored": ignored, "latest": latestT})
 }
